@@ -25,15 +25,6 @@ Definition entry_new (k v : str) : tree :=
 (* impl FromIterator<(K, V)> for Paragraph / Paragraph::new *)
 Definition paragraph_of_pairs (l : list (str * str)) : tree :=
   Node PARAGRAPH (map (fun kv => entry_new (fst kv) (snd kv)) l).
-(* impl FromIterator<Paragraph> for Deb822 / Deb822::new *)
-Definition blank_line_node : tree := Node EMPTY_LINE [Tok NEWLINE [10%N]].
-Fixpoint join_paras (i : nat) (ps : list tree) : list tree :=
-  match ps with
-  | [] => []
-  | p :: r => (match i with O => [] | S _ => [blank_line_node] end) ++ p :: join_paras (S i) r
-  end.
-Definition deb822_of_paragraphs (ps : list tree) : tree := Node ROOT (join_paras 0 ps).
-
 (* ---------------- ensure_trailing_newline ---------------- *)
 (* node.last_token(): the last child's last token, recursively; None when the last child is a
    node without tokens.  If it is not a NEWLINE, a NEWLINE "\n" is inserted right after it. *)
@@ -53,6 +44,24 @@ Fixpoint ensure_nl (t : tree) : tree :=
                end) cs)
   end.
 Definition ensure_nl_list (cs : list tree) : list tree := children (ensure_nl (Node ROOT cs)).
+
+(* impl FromIterator<Paragraph> for Deb822 / Deb822::new.  Every paragraph that is followed by another
+   one is terminated first (fix 316b0fc; before it a parsed paragraph without final line end was
+   fused with the next: "A: 1" ++ blank line ++ "B: 2" printed "A: 1\nB: 2"). *)
+Definition blank_line_node : tree := Node EMPTY_LINE [Tok NEWLINE [10%N]].
+Fixpoint join_paras (i : nat) (ps : list tree) : list tree :=
+  match ps with
+  | [] => []
+  | p :: r => (match i with O => [] | S _ => [blank_line_node] end)
+              ++ (match r with [] => p | _ => ensure_nl p end) :: join_paras (S i) r
+  end.
+Definition deb822_of_paragraphs (ps : list tree) : tree := Node ROOT (join_paras 0 ps).
+(* the code before fix 316b0fc *)
+Fixpoint join_paras_before_fix (i : nat) (ps : list tree) : list tree :=
+  match ps with
+  | [] => []
+  | p :: r => (match i with O => [] | S _ => [blank_line_node] end) ++ p :: join_paras_before_fix (S i) r
+  end.
 
 (* ---------------- Paragraph edits (on the PARAGRAPH node's children) ---------------- *)
 Definition entry_has_key (k : str) (e : tree) : bool :=
